@@ -45,6 +45,19 @@ _ns = {"__name__": "__main__"}
 exec(_SRC, _ns)
 
 
+class Cycler:
+    """a generator supplied as an object that carries its own state: every
+    call hands out the next of its values"""
+
+    def __init__(self, values):
+        self.values, self.i = list(values), 0
+
+    def __call__(self):
+        v = self.values[self.i % len(self.values)]
+        self.i += 1
+        return v
+
+
 def events(tier, depth_left, engine="pickle"):
     ev = []
     pts = list(itertools.product(CH["a"], CH["b"]))
@@ -61,6 +74,13 @@ def events(tier, depth_left, engine="pickle"):
         # (... whose values are strings, next to the numeric ones)
         ev.append(["sample", [[2, 10, "t"], [1, 10, "u"]], "c"])
     ev.append(["sample", [[2, 10], [1, 10]], "k"])  # an extra constant
+    # a constant given for one run that names a sampled argument (it wins,
+    # for the call and for the row alike)
+    ev.append(["sample", [[2, 10], [1, 20]], "clash"])
+    # generators that are objects with a state of their own, handed to a new
+    # Sampler for every run
+    ev.append(["sample_obj", 1])
+    ev.append(["sample_obj", 2])
     # the numpy random-choice path: one long-lived Sampler whose choices are
     # plain lists, with and without other lists given for one run only
     ev.append(["sample_np", 2, 7, None])
@@ -76,6 +96,7 @@ def events(tier, depth_left, engine="pickle"):
     ev.append(["crop", [[1, 20], [2, 10]], 2, True, 4])
     ev.append(["crop", [[1, 10], [1, 10], [2, 10]], 2, True, None])
     ev.append(["crop", [[2, 10]], 1, False, 4])
+    ev.append(["crop", [[2, 10], [1, 20]], 1, False, None, "clash"])
     # sown and grown, then sown again (new draws) before anything is reaped,
     # every batch grown again explicitly
     ev.append(["crop", [[1, 20], [2, 20]], 1, True, None, "resow"])
@@ -101,6 +122,8 @@ class World:
         self.s2 = self.new_sampler()
         self.snp = None
         self.snp_used = set()
+        self.cyc = {"a": Cycler(CH["a"]), "b": Cycler(CH["b"] + [10])}
+        self.ndraw = 0
         self.last = self.s
 
     def new_sampler(self, scripted=True):
@@ -156,18 +179,39 @@ class World:
                 kw["combos"] = {"c": _ns["scripted"]("c")}
             elif over == "k":
                 kw["constants"] = {"k": 4}
+            elif over == "clash":
+                kw["constants"] = {"b": 30}
             builtins._xv_script = script
             try:
                 last = self.s.sample_combos(n, verbosity=0, **kw)
             except Exception as e:
                 return [("raised:" + type(e).__name__,
                          "sample_combos raised %r" % e)]
-            if any(script.values()):
+            if any(script.values()) and over != "clash":
                 vio.append(("draw-count", "generators were not called exactly "
                             "n times: left %r" % script))
             new_rows = [self.expect_row(
-                s[0], s[1], s[2] if over == "c" else None,
+                s[0], 30 if over == "clash" else s[1],
+                s[2] if over == "c" else None,
                 4 if over == "k" else None) for s in seq]
+        elif kind == "sample_obj":
+            n = ev[1]
+            # (the reference model counts the draws itself)
+            want_draws = [(CH["a"][(self.ndraw + j) % 2],
+                           (CH["b"] + [10])[(self.ndraw + j) % 3])
+                          for j in range(n)]
+            self.ndraw += n
+            r = xyz.Runner(self.f, var_names="out", constants={"k": 0})
+            so = xyz.Sampler(r, data_name=self.path, engine=self.cfg["engine"],
+                             default_combos={"b": self.cyc["b"],
+                                             "a": self.cyc["a"]})
+            try:
+                last = so.sample_combos(n, verbosity=0)
+            except Exception as e:
+                return [("raised:" + type(e).__name__,
+                         "sample_combos (generator objects) raised %r" % e)]
+            self.s = self.new_sampler()
+            new_rows = [self.expect_row(a_, b_) for a_, b_ in want_draws]
         elif kind == "sample_np":
             _, n, seed, over = ev
             if self.snp is None:
@@ -198,7 +242,8 @@ class World:
                 vio.append(("run-length", "%d rows for n=%d" % (len(got), n)))
         elif kind == "crop":
             _, seq, bs, live, constk = ev[:5]
-            resow = len(ev) > 5
+            resow = len(ev) > 5 and ev[5] == "resow"
+            clash = len(ev) > 5 and ev[5] == "clash"
             n = len(seq)
             builtins._xv_script = {"a": [s[0] for s in seq],
                                    "b": [s[1] for s in seq]}
@@ -223,7 +268,9 @@ class World:
                 crop = self.crops[bs, n]
                 if crop.is_prepared():
                     crop.missing_results()
-                if constk is None:
+                if clash:
+                    crop.sow_samples(n, verbosity=0, constants={"b": 30})
+                elif constk is None:
                     crop.sow_samples(n, verbosity=0)
                 else:
                     crop.sow_samples(n, verbosity=0, constants={"k": constk})
@@ -243,7 +290,8 @@ class World:
                 self.last = self.s
                 return [("raised:" + type(e).__name__,
                          "sow_samples/grow/reap raised %r" % e)]
-            new_rows = [self.expect_row(s[0], s[1], k=constk) for s in seq]
+            new_rows = [self.expect_row(s[0], 30 if clash else s[1], k=constk)
+                        for s in seq]
         elif kind == "new_session":
             self.s = self.new_sampler()
             self.last = self.s
@@ -299,7 +347,8 @@ class World:
         # wrote last (objects may hold hidden state: merging histories that
         # differ in them would hide what they do next)
         key = core.jhash([want, sorted(getattr(self, "crops", {})),
-                          self.last is self.s2, sorted(self.snp_used)])
+                          self.last is self.s2, sorted(self.snp_used),
+                          self.ndraw % 6])
         return vio, key
 
 
